@@ -138,3 +138,88 @@ Proof.
   destruct rx_refutes as (H1 & H2 & H3 & H4 & H5 & H6 & H7 & H8 & H9 & H10 & H11 & H12).
   repeat (split; [assumption|]). eexists. split; [exact H10|]. split; assumption.
 Qed.
+
+(* ---- files of standard and IAT batches ------------------------------------------------------- *)
+
+Lemma c12_succeeds_iat hd sp ip ap kiat inf inp r :
+  mixed_file kiat inp -> inp <> [] -> i_hdr_ok inf = true ->
+  kinds_consistent inp -> Forall traces_nodup inp ->
+  Forall (fun b => kiat (b_sig b) = false -> Arith.validate_batch GA (f_batch GA (hp_of hd) (fp_of sp) b) = Arith.ROk) inp ->
+  Forall (mixed_pair hd ip kiat) (ids inp) ->
+  i_count inf = sum_pairs (cnt_p ip kiat) inp ->
+  i_debit inf = sum_pairs (db_p GT GTT sp ip kiat) inp -> i_credit inf = sum_pairs (cr_p GT GTT sp ip kiat) inp ->
+  cat_rule inp ->
+  i_debit inf <= Arith.t_file_limit GA -> i_credit inf <= Arith.t_file_limit GA ->
+  flatten_full_spec GA GT GTT hd sp ip ap inf inp r ->
+  (fst r = FOk \/ (fst r = FErrValidate /\ file_ctl_ok GA (snd r) = false))
+  /\ Offsets.fc_count (af_ctl (snd r)) = i_count inf
+  /\ Offsets.fc_debit (af_ctl (snd r)) = i_debit inf
+  /\ Offsets.fc_credit (af_ctl (snd r)) = i_credit inf
+  /\ exists all, r = finish GA GT GTT hd sp ip ap inf all /\ flatten_spec inp (finalize all)
+       /\ (length (af_std (snd r)) + length (af_iat (snd r)) = length all)%nat
+       /\ Forall (fun x => (created_s GA GT hd sp kiat x \/ created_i GTT hd ip kiat x) /\ StronglySorted trace_lt (b_entries x)) (pre all).
+Proof.
+  intros. eapply (flatten_succeeds_mixed GA GT GTT gen_agree); eauto using c12_limits.
+Qed.
+
+Lemma c12_create_iat hd ip x :
+  hd_ok (hd (b_sig x)) = true -> hd_odfi_num (hd (b_sig x)) = true -> b_entries x <> [] ->
+  Forall (fun e => BuildIAT.incl_ok (to_iat_entry ip e) = true /\ ip_tr_num (ip (e_core e)) = true) (b_entries x) ->
+  category_ok x = true ->
+  exists b', create_iat GTT hd ip x = Some b'
+    /\ Offsets.c_count (BuildIAT.ib_ctl b') = BuildIAT.icount (map (to_iat_entry ip) (b_entries x))
+    /\ Offsets.c_credit (BuildIAT.ib_ctl b') = BuildIAT.icredits GTT (map (to_iat_entry ip) (b_entries x))
+    /\ Offsets.c_debit (BuildIAT.ib_ctl b') = BuildIAT.idebits GTT (map (to_iat_entry ip) (b_entries x)).
+Proof. apply create_iat_spec. Qed.
+
+(* non-vacuity: the standard batches of ex_inp plus two IAT batches with one header *)
+Definition mx_kiat (s : bytes) : bool := match s with [9%N] => true | _ => false end.
+Definition mx_hd (s : bytes) : hdrp :=
+  if mx_kiat s then mkhdrp 200 (dsb [2;3;1;3;8;0;1;0]) true false 23138010 true else fx_hd s.
+Definition mx_ip (c : bytes) : ipay := mkipay 22 12104288 true [true; true; true; true; true; true; true] 1 0 false false.
+Definition mx_i1 := mkEntry (dsb [2;3;1;3;8;0;1;0;0;0;0;0;0;0;5]) [5%N] 1000 false 8 0.
+Definition mx_i2 := mkEntry (dsb [2;3;1;3;8;0;1;0;0;0;0;0;0;0;3]) [6%N] 2500 false 8 0.
+Definition mx_inp : list batch := ex_inp ++ [mkBatch KIAT [9%N] 3 [mx_i1] []; mkBatch KIAT [9%N] 4 [mx_i2] []].
+Definition mx_inf : fin := mkfin true 21 0 3800.
+
+Ltac mx_pair := unfold mixed_pair; cbn [fst snd]; split; [vm_compute; reflexivity|split; intros K; try (vm_compute in K; discriminate K); repeat split; vm_compute; try reflexivity; try discriminate].
+
+Lemma mx_hyps :
+  mixed_file mx_kiat mx_inp /\ mx_inp <> [] /\ i_hdr_ok mx_inf = true /\ kinds_consistent mx_inp /\ Forall traces_nodup mx_inp /\
+  Forall (fun b => mx_kiat (b_sig b) = false -> Arith.validate_batch GA (f_batch GA (hp_of mx_hd) (fp_of fx_sp) b) = Arith.ROk) mx_inp /\
+  Forall (mixed_pair mx_hd mx_ip mx_kiat) (ids mx_inp) /\
+  i_count mx_inf = sum_pairs (cnt_p mx_ip mx_kiat) mx_inp /\
+  i_debit mx_inf = sum_pairs (db_p GT GTT fx_sp mx_ip mx_kiat) mx_inp /\
+  i_credit mx_inf = sum_pairs (cr_p GT GTT fx_sp mx_ip mx_kiat) mx_inp /\
+  cat_rule mx_inp /\ i_debit mx_inf <= Arith.t_file_limit GA /\ i_credit mx_inf <= Arith.t_file_limit GA.
+Proof.
+  split.
+  { unfold mixed_file, mx_inp, ex_inp. cbn [app].
+    repeat (apply Forall_cons; [split; [cbn; congruence|split; [reflexivity|first [left; split; reflexivity|right; split; reflexivity]]]|]).
+    apply Forall_nil. }
+  split; [discriminate|]. split; [reflexivity|].
+  split.
+  { intros a b Ha Hb Hs. cbn in Ha, Hb.
+    destruct Ha as [<-|[<-|[<-|[<-|[]]]]], Hb as [<-|[<-|[<-|[<-|[]]]]]; try reflexivity; cbn in Hs; discriminate Hs. }
+  split; [repeat constructor; cbn; tauto|].
+  split.
+  { repeat constructor; intros K; try (vm_compute in K; discriminate K); vm_compute; reflexivity. }
+  split.
+  { unfold ids, mx_inp, ex_inp. cbn [app flat_map ids_of map b_entries b_sig].
+    repeat (apply Forall_cons; [mx_pair|]). apply Forall_nil. }
+  split; [vm_compute; reflexivity|]. split; [vm_compute; reflexivity|]. split; [vm_compute; reflexivity|].
+  split.
+  { split; [|split].
+    - repeat constructor; cbn; intros; intuition (subst; reflexivity).
+    - intros a b Ha Hb _. cbn in Ha, Hb.
+      destruct Ha as [<-|[<-|[<-|[<-|[]]]]], Hb as [<-|[<-|[<-|[<-|[]]]]]; reflexivity.
+    - repeat constructor; cbn; now right. }
+  split; vm_compute; discriminate.
+Qed.
+
+Lemma mx_result :
+  let r := flatten_full_stable GA GT GTT mx_hd fx_sp mx_ip fx_ap mx_inf mx_inp in
+  fst r = FOk /\ length (af_std (snd r)) = 1%nat /\ length (af_iat (snd r)) = 1%nat /\
+  map (fun b => map BuildIAT.ie_trace (BuildIAT.ib_entries b)) (af_iat (snd r)) = [[231380100000003; 231380100000005]] /\
+  Offsets.fc_count (af_ctl (snd r)) = 21 /\ Offsets.fc_credit (af_ctl (snd r)) = 3800.
+Proof. vm_compute. repeat split. Qed.
